@@ -29,8 +29,12 @@ UUClauses ==
 (* fn = "tetra": keys of TetraWeights.weights_all_band_groups(eFermi, der=0) for one k-point; energies in half units *)
 TetraClauses ==
    LET E == AsSeq(Rec.E)  lo == AsSeq(Rec.lo)  hi == AsSeq(Rec.hi)  T == PairsOf(Rec.out)
-       exp == TetraTraced(E, lo, hi, Rec.th, Rec.ef0, Rec.ef1, TRUE) IN
-   [ equals_spec |-> Len(T) = Len(exp) /\ {T[j] : j \in 1..Len(T)} = {exp[j] : j \in 1..Len(exp)},
+       exp == TetraTraced(E, lo, hi, Rec.th, Rec.ef0, Rec.ef1, TRUE)
+       Bands(B) == UNION {B[j][1]..(B[j][2] - 1) : j \in 1..Len(B)} IN
+   \* how the traced bands are cut into blocks is free (any union of whole multiplets): compared are the bands covered,
+   \* that no band is traced twice and that no block cuts a multiplet
+   [ same_bands |-> Bands(T) = Bands(exp),
+     disjoint |-> \A a, b \in 1..Len(T) : a < b => (T[a][1]..(T[a][2] - 1)) \cap (T[b][1]..(T[b][2] - 1)) = {},
      unions_of_multiplets |-> UnionsOfMultiplets(T, DegenRG(E, Rec.thg)) ]
 Clauses == CASE Rec.fn = "hk" -> HkClauses [] Rec.fn = "degen" -> DegenClauses [] Rec.fn = "uu" -> UUClauses [] Rec.fn = "tetra" -> TetraClauses
 Report == LET C == Clauses IN \A n \in DOMAIN C : C[n] \/ PrintT(<<"BAD", i, n>>)      \* the table is evaluated once
